@@ -18,7 +18,7 @@ ID = 'C13'
 LEVEL = 'exploration'
 RUNS = {'quick': 16000, 'thorough': 300000}
 CHUNK = 40
-PROBES = ['request_that_fails_at_creation', 'lookup_crossing_call_start', 'capture_begins_and_ends_inside_announcement_pairs', 'trace_string_code_outside_trace_class', 'request_without_code_table_after_custom_one', 'crossing_classes_on_one_thread', 'process_named_like_a_number', 'empty_thread_map', 'process_of_thread_announced_in_stream', 'dump_cut_at_both_ends', 'class_filter_bsd', 'class_filter_non_bsd', 'bsd_subclass_filter', 'tid_filter', 'process_filter_name', 'process_filter_pid',
+PROBES = ['other_request_made_while_listing_half_read', 'bsd_call_named_in_another_bsd_subclass', 'request_that_fails_at_creation', 'lookup_crossing_call_start', 'capture_begins_and_ends_inside_announcement_pairs', 'trace_string_code_outside_trace_class', 'request_without_code_table_after_custom_one', 'crossing_classes_on_one_thread', 'process_named_like_a_number', 'empty_thread_map', 'process_of_thread_announced_in_stream', 'dump_cut_at_both_ends', 'class_filter_bsd', 'class_filter_non_bsd', 'bsd_subclass_filter', 'tid_filter', 'process_filter_name', 'process_filter_pid',
           'helper_trace_class_hidden', 'helper_fs_class_hidden', 'helper_class_requested', 'repeat_request', 'callstacks_repeat',
           'kevents_after_traces', 'tuple_filter', 'images_announced_after_sample', 'combined_filters']
 RULE = ('one run = one long-lived PyKdebugParser and a history of 2..6 judged requests (traces, formatted_traces, callstacks, '
@@ -33,6 +33,7 @@ ASSUMPTIONS = ['subclass filters are BSD subclasses only (the statement says BSD
                'no terminate-pid records in these dumps (self re-mapping is C14\'s subject)']
 DBG_TRACE, DBG_FSYSTEM, DBG_BSD = 7, 3, 4
 MOVED_ID = 0x2f00bef0
+MOVED_BSD_ID = 0x040e0010
 
 
 def _gen_filters(rng, dump):
@@ -55,6 +56,9 @@ def _gen_filters(rng, dump):
     if dump.get('moved_trace') and rng.chance(0.4):
         f['cls'] = rng.pick([[MOVED_ID >> 24], [MOVED_ID >> 24, 4], [1, MOVED_ID >> 24]])
         f.pop('sub', None)
+    elif dump.get('moved_bsd') and rng.chance(0.5):
+        f.pop('cls', None)
+        f['sub'] = rng.pick([[0x040e], [0x040e, 0x040c], [0x040e]])
     if rng.chance(0.35):
         f['tid'] = rng.pick(tids)
     if rng.chance(0.35):
@@ -203,6 +207,12 @@ def generate(rng, index, tier):
             th = rng.pick(d['threads'])
             th['ops'].insert(rng.randrange(len(th['ops']) + 1), {'k': 'raw', 'id': MOVED_ID, 'q': 0, 'a': worlds.kernel.records.text_words(rng.ident(3, 9).encode(), 4)})
             d['moved_trace'] = True
+            if rng.chance(0.6):
+                s_, e_ = worlds.domains.draw(rng, 'BSC_stat64')
+                th.setdefault('ops', []).insert(rng.randrange(len(th['ops']) + 1), {'k': 'seq', 'ops': [
+                    {'k': 'raw', 'id': MOVED_BSD_ID, 'q': 1, 'a': list(s_)}, worlds.op_lookup(rng, rng.pick([10, 40])),
+                    {'k': 'raw', 'id': MOVED_BSD_ID, 'q': 2, 'a': list(e_)}]})
+                d['moved_bsd'] = True
         if rng.chance(0.2):
             old = d['threads'][0]['tid']
             d['threads'][0]['tid'] = 0          # thread id 0
@@ -225,6 +235,7 @@ def generate(rng, index, tier):
                 hist[-1].update({'which': 'sub', 'value': rng.pick([0x040c, 0x0401, 0x0103])})
         elif r < 0.7:
             hist.append({'op': 'request', 'dump': di, 'what': rng.pick(['traces', 'traces', 'formatted_traces']), 'repeat': rng.chance(0.5),
+                         'meanwhile': {'after': rng.randint(1, 6), 'what': rng.pick(['traces', 'formatted_traces', 'callstacks', 'kevents']), 'dump': rng.randrange(len(dumps))} if rng.chance(0.15) else None,
                          'codes': rng.pick(['arg', 'arg', 'arg', 'none', 'other'] if not dumps[di].get('moved_trace') else ['other', 'other', 'arg'])})
         elif r < 0.85:
             hist.append({'op': 'request', 'dump': di, 'what': 'callstacks', 'repeat': rng.chance(0.7)})
@@ -367,6 +378,7 @@ def execute(scn):
     p = tool.pk_mod.PyKdebugParser()
     cur = {}
     hist = []
+    held_ = []
     shapes = set()
     nontrivial = False
     custom_seen = [False]
@@ -388,6 +400,7 @@ def execute(scn):
                 t2.pop(worlds.catalog()['ids']['BSC_getpid'], None)
                 t2[0x2f00beec] = 'BSC_getpid'
                 t2[MOVED_ID] = 'TRACE_STRING_PROC_EXIT'
+                t2[MOVED_BSD_ID] = 'BSC_stat64'        # a path-taking call named by the caller's table in another BSD subclass
                 other_tables[di] = t2
             custom_seen[0] = True
             return other_tables[di], other_tables[di]
@@ -454,12 +467,38 @@ def execute(scn):
                 bump('premise_skipped')
                 hist.append([what, 'premise-skipped'])
                 continue
+            def judged_listing(make):
+                if not h.get('meanwhile'):
+                    return common.drain(make)
+                # part of the listing is read, then ANOTHER request is made on the same object (made, not read: requests are
+                # lazy), then the rest of the listing is read
+                bump('probe:other_request_made_while_listing_half_read')
+                bump('fault:interleaved_request')
+                mw = h['meanwhile']
+                got_, exc_ = [], None
+                try:
+                    it_ = iter(make())
+                    for _k in range(mw.get('after', 1)):
+                        x_ = next(it_, None)
+                        if x_ is None:
+                            break
+                        got_.append(x_)
+                    fn_ = {'traces': lambda rd: p.traces(rd, targ), 'formatted_traces': lambda rd: p.formatted_traces(rd, targ),
+                           'callstacks': lambda rd: p.callstacks(rd, tables[di]), 'kevents': lambda rd: p.kevents(rd)}[mw['what']]
+                    held_.append(fn_(SimReader(files[mw['dump'] % len(files)])))
+                    rest_, exc_ = common.drain(it_)
+                    got_ += rest_
+                except common.SimBudgetExceeded:
+                    raise
+                except Exception as e_:
+                    exc_ = e_
+                return got_, exc_
             if what == 'traces':
-                items, exc = common.drain(lambda: p.traces(SimReader(files[di]), targ))
+                items, exc = judged_listing(lambda: p.traces(SimReader(files[di]), targ))
                 got = [str(t) for t in items] if exc is None else None
             else:
                 p.color = False
-                items, exc = common.drain(lambda: p.formatted_traces(SimReader(files[di]), targ))
+                items, exc = judged_listing(lambda: p.formatted_traces(SimReader(files[di]), targ))
                 got = items
             if cur.get('as_tuple'):
                 bump('probe:tuple_filter')
@@ -491,6 +530,8 @@ def execute(scn):
                     bump('probe:process_of_thread_announced_in_stream')
             if scn['dumps'][di].get('faults'):
                 bump('probe:dump_cut_at_both_ends')
+            if scn['dumps'][di].get('moved_bsd') and tref.get(MOVED_BSD_ID) and 0x040e in sub:
+                bump('probe:bsd_call_named_in_another_bsd_subclass')
             if scn['dumps'][di].get('lookup_structures') and (cls or sub):
                 bump('probe:lookup_crossing_call_start')
             if scn['dumps'][di].get('orphan_halves'):
